@@ -711,7 +711,11 @@ func (c *Ctx) Load(st *State, p *Ptr) *Val {
 	if p.Reg != nil {
 		v := st.regs[*p.Reg]
 		if v == nil {
-			v = c.zeroVal(p.Reg.al.Type().(*types.Pointer).Elem())
+			if p.Reg.al == nil {
+				v = c.zeroVal(p.Elem)
+			} else {
+				v = c.zeroVal(p.Reg.al.Type().(*types.Pointer).Elem())
+			}
 			st.regs[*p.Reg] = v
 		}
 		for _, i := range p.Path {
